@@ -73,9 +73,14 @@ def single_checks(a):
                 if got != list(want[:3]):
                     out.append(("iteration-wrong", "iter(%s) starts %s, expected %s" % (rp, got, list(want[:3]))))
             lo, hi = min(n0, n1), max(n0, n1)
+            import numpy as np
             for x in (lo - 1, lo, lo + 1, (lo + hi) // 2, hi - 1, hi, hi + 1):
                 if (x in a) != (x in want):
                     out.append(("membership-wrong", "(%d in %s) is %r" % (x, rp, x in a)))
+                    break
+                # the same step as a NumPy integer (what the tabulated Mixed planner puts into actions)
+                if -2 ** 62 < x < 2 ** 62 and (np.int64(x) in a) != (x in want):
+                    out.append(("membership-wrong", "(np.int64(%d) in %s) is %r" % (x, rp, np.int64(x) in a)))
                     break
         except Exception as e:
             out.append(("enumeration-raises", "%s: len/iter/in raised %s: %s" % (rp, type(e).__name__, e)))
@@ -433,5 +438,6 @@ def run(prop, args):
         def det(c):
             return next((d for (p, pred, d) in _exec(c)["viol"] if p == prop and pred == b[1]), None)
         small = C.shrink(w, lambda c: det(c) is not None, budget=80)
-        return small, det(small) or ""
+        d_ = det(small)
+        return (small, d_) if d_ else None      # None: not reproducible in isolation
     return rep.finish(shrink_fn=shrink)
